@@ -8,12 +8,17 @@
 //	    (factory call, Bind by instance i, Shoot start / end in goroutine r), objects and goroutines
 //	    numbered by first appearance, joined by ','.  The trace is schedule dependent; the model
 //	    accepts or rejects it.
+//	sched <ninst> <nparts> <perinst 0|1>
+//	    the real engine with mock gun/provider (ammo never runs out) and a REAL composite rps schedule of
+//	    nparts alternating once(k) / unlimited(1ms) parts (shared by the instances unless perinst):
+//	    the instances reach every part boundary together. Observation = ok | err:<engine error> | hang
 //	agrpc <ninst> <timeout_ms> <order> <users> <calls> <scenarios>      (same fields as hC20 scen)
 //	    sequential aliasing differential through the real grpc/scenario provider + guns; observation =
 //	    what the target received per shot  +  " post "  +  the shared definition read back afterwards
 //	ahttp <ninst> <order> <users> <requests> <scenarios>
-//	    the same for http/scenario: requests = def|def…  def = namehex;methodhex;urihex;headers;body;pp
-//	    headers = - | khex=texthex,…   body = - | hex
+//	    the same for http/scenario: requests = def|def…  def = namehex;methodhex;urihex;headers;body;pp;assert
+//	    headers = - | khex=texthex,…   body = - | hex   assert=1: postprocessor assert/response body ["result":"ok"]
+//	    (the target answers "result":"bad" when the URI contains "nok": the step then fails after delivery)
 //	race <pool> <ninst> <nshots> <variant>
 //	    (run in a subprocess of the -race build) N instances of a pool kind under the real engine
 //	    against in-process targets; observation = clean | race:<functions> | fatal:<message>
@@ -158,6 +163,64 @@ func runOwn(f []string) string {
 	return strings.Join(lg.evs, ",")
 }
 
+// ---------- sched: real composite schedule shared by the instances ----------
+
+type endlessProvider struct{}
+
+func (endlessProvider) Run(ctx context.Context, deps core.ProviderDeps) error { <-ctx.Done(); return nil }
+func (endlessProvider) Acquire() (core.Ammo, bool)                             { return 1, true }
+func (endlessProvider) Release(core.Ammo)                                      {}
+
+type nopGun struct{}
+
+func (nopGun) Bind(core.Aggregator, core.GunDeps) error { return nil }
+func (nopGun) Shoot(core.Ammo)                          {}
+
+func runSched(f []string) string {
+	ninst, _ := strconv.Atoi(f[1])
+	nparts, _ := strconv.Atoi(f[2])
+	perInst := f[3] == "1"
+	mk := func() (core.Schedule, error) {
+		var parts []core.Schedule
+		for i := 0; i < nparts; i++ {
+			if i%2 == 0 {
+				parts = append(parts, schedule.NewOnce(int64(1+i%4)))
+			} else {
+				parts = append(parts, schedule.NewUnlimited(time.Millisecond))
+			}
+		}
+		parts = append(parts, schedule.NewOnce(1))
+		return schedule.NewComposite(parts...), nil
+	}
+	eng := engine.New(zap.NewNop(), newMetrics(), engine.Config{Pools: []engine.InstancePoolConfig{{
+		ID: "p", Provider: endlessProvider{}, Aggregator: nopAggr{},
+		NewGun:          func() (core.Gun, error) { return nopGun{}, nil },
+		RPSPerInstance:  perInst,
+		NewRPSSchedule:  mk,
+		StartupSchedule: schedule.NewOnce(int64(ninst)),
+	}}})
+	ctx, cancel := context.WithTimeout(context.Background(), 10*time.Second)
+	defer cancel()
+	res := make(chan error, 1)
+	go func() { res <- eng.Run(ctx) }()
+	select {
+	case err := <-res:
+		if err != nil {
+			return "err:" + strings.ReplaceAll(err.Error(), " ", "_")
+		}
+	case <-time.After(12 * time.Second):
+		return "hang"
+	}
+	done := make(chan struct{})
+	go func() { eng.Wait(); close(done) }()
+	select {
+	case <-done:
+	case <-time.After(5 * time.Second):
+		return "hang"
+	}
+	return "ok"
+}
+
 // ---------- race: each case in a subprocess of the -race build ----------
 
 var raceFn = regexp.MustCompile(`^\s+(github\.com/yandex/pandora/[^\s(]+(?:\(\*?[A-Za-z0-9_\[\].]+\))?[^\s(]*)\(`)
@@ -236,6 +299,9 @@ func runRaceSub(c string) string {
 		return s
 	}
 	out := strings.TrimSpace(so.String())
+	if strings.HasPrefix(out, "counts:") || strings.HasPrefix(out, "enginerr:") {
+		return out
+	}
 	if !strings.HasPrefix(out, "done") {
 		return "failed:" + vh.HexS(out+"|"+lastLine(se.String()))
 	}
@@ -260,6 +326,8 @@ func runCase(c string) (res string) {
 	switch f[0] {
 	case "own":
 		return runOwn(f)
+	case "sched":
+		return runSched(f)
 	case "agrpc":
 		return runAliasGRPC(f)
 	case "ahttp":
